@@ -254,14 +254,14 @@ pub fn plan(property: &str, tier: Tier) -> Option<Plan> {
     let mut assumptions = COMMON_ASSUMPTIONS.to_vec();
     let (runs, budget_s, level, rule): (u64, u64, &str, &str) = match property {
         "C01" => (
-            if q { 640 } else { 20_000 },
-            if q { 100 } else { 1800 },
+            if q { 400 } else { 20_000 },
+            if q { 240 } else { 1800 },
             "exploration",
             "one case = one seeded execution of a 4-9 validator cluster of real nodes (stakes, Byzantine set <20% stake, crash set, disseminator, loss/dup/delay/partition/stall schedule, Byzantine voter/leader strategy all drawn from the seed); non-trivial = at least two correct nodes finalized a block and at least one fault or Byzantine action fired; distinct = distinct fingerprint of the abstracted per-node history (sequence of votes cast and blocks finalized/skipped per node)",
         ),
         "C02" => (
-            if q { 320 } else { 6_000 },
-            if q { 150 } else { 1800 },
+            if q { 192 } else { 6_000 },
+            if q { 300 } else { 1800 },
             "exploration",
             "one case = one seeded cluster execution with a drawn stabilisation time T_s (before: arbitrary faults; after: no loss, delay <= 100 ms, <20% Byzantine, <20% further crashed); non-trivial = at least one leader window qualified for the bounded-liveness oracle and (except in the fault-free variant) a pre-T_s fault fired; distinct = distinct per-node history fingerprint",
         ),
@@ -289,9 +289,9 @@ pub fn plan(property: &str, tier: Tier) -> Option<Plan> {
             "one case = one real Repair::repair_loop repairing one 1..K-slice block (honest or Byzantine leader, optionally with dissemination data already present) from 2-7 peers that are real RepairRequestHandlers with or without the block, silent nodes, or liars (wrong variant, aliased/wrong indices, wrong root, mutated proofs, other block's material, alternative last-flag signing, duplicates, unsolicited answers, delays) over a network with loss/duplication/stragglers until a drawn stabilisation time; checked: announced/stored block hashes to the requested id, no panic, dissemination data untouched, repair completes within 20*REPAIR_TIMEOUT after stabilisation while an honest peer holds the block, and an honest responder answers every request shape with verifying data or a NACK; non-trivial = a liar or an honest holder took part; distinct = (roles, slices, liar fault kinds fired, outcome)"),
         "C15" => (if q { 20_000 } else { 600_000 }, if q { 90 } else { 1500 }, "exploration",
             "two variants: (1) the repair world of C14 with liars presenting aliased indices (index + k*2^height), non-last slices as last, mutated proofs; the requester must never request a slice beyond the block's true last slice; (2) trees of 1..1024 (thorough 4096) leaves incl. powers of two +-1: every created proof verifies, check_proof_last holds exactly for the last leaf, and every mutation (leaf, swapped leaf, index inside/beyond width/huge, root bit, proof element bit, proof length 0..33) must fail both verifiers without panicking; distinct = (leaf count, index, mutation classes)"),
-        "C05" => (if q { 480 } else { 20_000 }, if q { 110 } else { 1800 }, "exploration",
+        "C05" => (if q { 400 } else { 20_000 }, if q { 240 } else { 1800 }, "exploration",
             "one case = one seeded cluster execution (as C01: faults, partitions, <20% Byzantine equivocating voters and leaders, several blocks per slot); every vote each correct node broadcasts is replayed in broadcast order against the voting rules: never a slashable combination with its own earlier votes, finalize only after notarizing and only for a block that has a notarization certificate, fallback votes only after an initial vote and only once the stake they require had been voted anywhere, notar only for a block whose parent is the block it notarized in the preceding slot or (window-first slot) a certified, skip-connected parent; non-trivial as C01; distinct = per-node history fingerprint"),
-        "C10" => (if q { 320 } else { 12_000 }, if q { 130 } else { 1800 }, "exploration",
+        "C10" => (if q { 192 } else { 12_000 }, if q { 300 } else { 1800 }, "exploration",
             "one case = one seeded cluster execution with hostile generators on all five interfaces interleaved with normal traffic (garbage and mutated consensus messages with absurd slots, forged votes/certificates, mutated shreds incl. odd sizes and flipped flags, repair requests with unknown senders/blocks/indices, unsolicited repair responses of every variant with proofs of length 0..33, oversize/empty/maximal transactions) plus a Byzantine leader signing malformed blocks (parent not earlier, first slice without parent, undecodable transactions, contradictory last flags, parent switched twice / to itself, slices after the last); checked: no panic located in the repository's sources in any task of a correct node, and (variant cluster-hostile-then-live) after the hostile phase every live correct node keeps finalizing within the C02 bound; non-trivial as C01; distinct = per-node history fingerprint"),
         "C09" => (if q { 4_000 } else { 200_000 }, if q { 120 } else { 1500 }, "exploration",
             "two variants: (1) forge: valid votes and certificates (3-10 validators, drawn stakes, signer subsets just below/at/above 60%/80%, mixed certificates incl. a signer in both halves) are altered on the wire by chains of 1-3 structured mutations (kind, slot, hash, signer, signer set, bitmask length/word count, out-of-range signer bit, signature bytes, foreign signature, halves swapped/moved, inflated declared stake) and offered to ValidatedVote/ValidatedCert::try_new; the verdict must equal an independent one (signature bytes equal the honest signature/aggregation of exactly the named signers over exactly this kind/slot/hash, bitmask length = validator count, distinct stake >= threshold) and never panic; (2) cluster-forger: the same forgeries plus byte corruption are injected at real nodes while normal traffic flows and every certificate a correct node (re-)broadcasts must validate; non-trivial = at least one mutation applied; distinct = set of mutation classes x outcome counts"),
